@@ -79,6 +79,9 @@ pub fn check(shape: &Shape, value: &Value, l: &mut Local) -> CaseResult {
 }
 
 pub fn replay(case: &Json, l: &mut Local) -> CaseResult {
+    if let Some(r) = super::corpus_checks::replay_corpus(case, l) {
+        return r;
+    }
     check(&shape_of(case), &value_of(case), l)
 }
 
